@@ -5,6 +5,7 @@
      V <engine> <id> <ok|diff|specfail> <tag> [| detail]
    Hand-written glue (trusted): hex/decimal conversion, md5 canonicalisation. *)
 open Model
+type string = Stdlib.String.t   (* Model exports Coq's string type (text constants of Router.v) *)
 
 let rec pos_of_int n = if n = 1 then XH else if n land 1 = 1 then XI (pos_of_int (n lsr 1)) else XO (pos_of_int (n lsr 1))
 let z_of_int n = if n = 0 then Z0 else if n > 0 then Zpos (pos_of_int n) else Zneg (pos_of_int (-n))
@@ -644,6 +645,124 @@ let do_storm id ins outs =
     else verdict "storm" id "spec:C04" tag (Printf.sprintf "capacity=%s max inside resolver during storm=%s, inside together afterwards=%s (events %s)" k md ba evs)
   | _ -> verdict "storm" id "diff" "malformed-line" ""
 
+(* ---- engine router (C20) ----
+   router <id> <fw> <pristine> <env> <script> => <op>:<ok|err>:<listens>:<env> ...
+   env: c:<N|Fhex>/i:../us:<uci>/uc:<uci>/nv:<nv>/d:<b>/f:<b>/lc:../lu:<uci>/ln:<nv>/r:<n> *)
+let hexs0 (l : z list) = match l with [] -> "-" | _ -> hex_of_string (string_of_bytes l)
+let r_opt s = if s = "N" then None else Some (bytes_of_token (String.sub s 1 (String.length s - 1)))
+let r_enc_opt = function None -> "N" | Some b -> "F" ^ hexs0 b
+let r_uci_keys = [k_port; k_server; k_dhcpopt; k_ipaddr]
+let r_parse_uci s =
+  List.concat (List.mapi (fun i p -> if p = "N" then [] else
+    [(List.nth r_uci_keys i, List.map bytes_of_token (String.split_on_char ',' p))]) (String.split_on_char ';' s))
+let r_enc_uci st =
+  String.concat ";" (List.map (fun k -> match sget k st with
+    | Some (_ :: _ as l) -> String.concat "," (List.map hexs0 l) | _ -> "N") r_uci_keys)
+let r_parse_nv s =
+  List.concat (List.mapi (fun i p -> if p = "N" then [] else
+    [(List.nth nv_names i, bytes_of_token (String.sub p 1 (String.length p - 1)))]) (String.split_on_char ';' s))
+let r_enc_nv st = String.concat ";" (List.map (fun k -> match nget k st with Some v -> "F" ^ hexs0 v | None -> "N") nv_names)
+let r_parse_env tok =
+  let parts = List.filter_map (fun p -> match String.index_opt p ':' with
+      | Some i -> Some (String.sub p 0 i, String.sub p (i+1) (String.length p - i - 1)) | None -> None)
+      (String.split_on_char '/' tok) in
+  let g k = try List.assoc k parts with Not_found -> failwith ("env part " ^ k) in
+  { conf = r_opt (g "c"); info = r_opt (g "i"); uci_c = r_parse_uci (g "uc"); uci_s = r_parse_uci (g "us");
+    nv = r_parse_nv (g "nv"); dhcp_on = (g "d" = "1"); filter_on = (g "f" = "1");
+    loaded = { l_conf = r_opt (g "lc"); l_uci = r_parse_uci (g "lu"); l_nv = r_parse_nv (g "ln") };
+    restarts = z_of_int (int_of_string (g "r")) }
+let r_enc_env e =
+  Printf.sprintf "c:%s/i:%s/us:%s/uc:%s/nv:%s/d:%s/f:%s/lc:%s/lu:%s/ln:%s/r:%d"
+    (r_enc_opt e.conf) (r_enc_opt e.info) (r_enc_uci e.uci_s) (r_enc_uci e.uci_c) (r_enc_nv e.nv)
+    (if e.dhcp_on then "1" else "0") (if e.filter_on then "1" else "0")
+    (r_enc_opt e.loaded.l_conf) (r_enc_uci e.loaded.l_uci) (r_enc_nv e.loaded.l_nv) (int_of_z e.restarts)
+let r_fw = function
+  | "openwrt" -> Openwrt | "merlin" -> Merlin | "ddwrt" -> Ddwrt | "edgeos" -> Edgeos | "synology" -> Synology
+  | "ubios" -> Ubios | "firewalla" -> Firewalla | "generic" -> Generic | s -> failwith ("fw " ^ s)
+let r_listens = function L53 -> "L53" | LLoop -> "LLoop" | LLocalhost -> "LLocalhost" | LKeep -> "LKeep"
+let r_view_str v =
+  Printf.sprintf "port0=%b port=%s fwd=[%s] noresolv=%b addmac=%b user=[%s]" v.v_port0 (string_of_bytes v.v_port)
+    (String.concat "," (List.map string_of_bytes v.v_fwd)) v.v_noresolv v.v_addmac
+    (String.concat "|" (List.map (fun b -> String.escaped (string_of_bytes b)) v.v_user))
+let split3 s =   (* op:err:listens:rest *)
+  let i1 = String.index s ':' in let i2 = String.index_from s (i1+1) ':' in let i3 = String.index_from s (i2+1) ':' in
+  (String.sub s 0 i1, String.sub s (i1+1) (i2-i1-1), String.sub s (i2+1) (i3-i2-1), String.sub s (i3+1) (String.length s - i3 - 1))
+
+let do_router id ins outs =
+  match ins with
+  | [fws; pristine; envtok; script] ->
+    (try
+      let f = r_fw fws in
+      let e0 = r_parse_env envtok in
+      let v0 = view f e0.loaded in
+      let lcs = List.filter (fun t -> String.length t >= 4) (String.split_on_char ',' script) in
+      let crash = List.exists (fun t -> t.[3] = 'C') lcs in
+      let tag = Printf.sprintf "%s/n%d%s%s" fws (List.length lcs) (if crash then "/crash" else "") (if pristine = "1" then "" else "/remnant") in
+      (match outs with
+       | [x] when String.length x > 9 && String.sub x 0 9 = "CHILDFAIL" ->
+         verdict "router" id "diff" (tag ^ "/childfail") (string_of_bytes (bytes_of_token (String.sub x 10 (String.length x - 10))))
+       | _ ->
+      (* model run *)
+      let model = ref [] in
+      let e = ref e0 in
+      List.iter (fun t ->
+        let c = { report = (t.[0] = '1'); cache0 = (t.[1] = '1') } in
+        let r = new0 f !e in
+        let (((r1, e1), ls), ok1) = configure r c !e in
+        model := Printf.sprintf "c:%s:%s:%s" (if ok1 then "ok" else "err") (r_listens ls) (r_enc_env e1) :: !model;
+        let ((r2, e2), ok2) = setup r1 e1 in
+        model := Printf.sprintf "s:%s:-:%s" (if ok2 then "ok" else "err") (r_enc_env e2) :: !model;
+        e := e2;
+        if t.[3] = 'R' then begin
+          let (e3, ok3) = restore r2 e2 in
+          model := Printf.sprintf "r:%s:-:%s" (if ok3 then "ok" else "err") (r_enc_env e3) :: !model;
+          e := e3
+        end) lcs;
+      let model = List.rev !model in
+      (* the specification on the implementation's own observations *)
+      let specfail = ref [] in
+      let rec walk lcs obs allclean =
+        match lcs, obs with
+        | t :: lrest, oc :: os :: orest ->
+          let c = { report = (t.[0] = '1'); cache0 = (t.[1] = '1') } in
+          let (_, okc, lst, _) = split3 oc and (_, oks, _, envs) = split3 os in
+          let es = r_parse_env envs in
+          let nodns = (f = Generic) || (f = Synology && not es.dhcp_on) in
+          if okc = "ok" && oks = "ok" then begin
+            let ls = match lst with "L53" -> Some L53 | "LLoop" -> Some LLoop | "LLocalhost" -> Some LLocalhost | _ -> None in
+            match ls with
+            | Some ls -> if not (c20_setup_ok f c ls nodns (view f es.loaded)) then
+                specfail := Printf.sprintf "after setup (report=%b cache=%b listens=%s): running dnsmasq has %s" c.report c.cache0 lst (r_view_str (view f es.loaded)) :: !specfail
+            | None -> specfail := ("Configure set unexpected listen addresses " ^ lst) :: !specfail
+          end;
+          if t.[3] = 'R' then begin
+            match orest with
+            | orr :: orest' ->
+              let (_, okr, _, envr) = split3 orr in
+              let er = r_parse_env envr in
+              let v = view f er.loaded in
+              let nodnsr = (f = Generic) || (f = Synology && not er.dhcp_on) in
+              if nodnsr then ()
+              else if not (c20_not_pointing v) then
+                specfail := Printf.sprintf "after restore (%s): running dnsmasq still has %s" okr (r_view_str v) :: !specfail
+              else if allclean && pristine = "1" && okr = "ok" && not (c20_restored v v0) then
+                specfail := Printf.sprintf "after a start/stop cycle the owner's configuration differs: now %s, before %s" (r_view_str v) (r_view_str v0) :: !specfail;
+              walk lrest orest' allclean
+            | [] -> ()
+          end else walk lrest orest false
+        | _, _ -> () in
+      walk lcs outs true;
+      let rec firstdiff i a b = match a, b with
+        | x :: ra, y :: rb -> if x = y then firstdiff (i+1) ra rb else Some (i, x, y)
+        | [], [] -> None
+        | x :: _, [] -> Some (i, x, "(missing)") | [], y :: _ -> Some (i, "(missing)", y) in
+      if !specfail <> [] then verdict "router" id "spec:C20" tag (String.concat " ;; " (List.rev !specfail))
+      else match firstdiff 0 model outs with
+        | None -> verdict "router" id "ok" tag ""
+        | Some (i, m, o) -> verdict "router" id "diff" tag (Printf.sprintf "step %d model=%s impl=%s" i m o))
+    with Failure m -> verdict "router" id "diff" "malformed-line" m | Not_found -> verdict "router" id "diff" "malformed-line" "")
+  | _ -> verdict "router" id "diff" "malformed-line" ""
+
 (* ---- engine resolvconf ----
    rc <id> <file|link> <contenthex> <events> => <states>   state: r=..,b=..,t=.. with N | F<hex> | L<hex> *)
 let do_rc id ins outs =
@@ -835,6 +954,7 @@ let () =
       | "hdr" :: id :: rest -> let (i, o) = split_arrow rest in do_hdr id i o
       | "cfg" :: id :: rest -> let (i, o) = split_arrow rest in do_cfg id i o
       | "rc" :: id :: rest -> let (i, o) = split_arrow rest in do_rc id i o
+      | "router" :: id :: rest -> let (i, o) = split_arrow rest in do_router id i o
       | "race" :: id :: rest -> let (i, o) = split_arrow rest in do_race id i o
       | "storm" :: id :: rest -> let (i, o) = split_arrow rest in do_storm id i o
       | "listen" :: id :: rest -> let (i, o) = split_arrow rest in do_listen id i o
